@@ -1058,10 +1058,11 @@ class AnyEtreeNodeProperty(_ElementBase):
                 raise ValueError(f'mandatory value {self._sub_element_name} missing')  # noqa: EM102
         else:
             sub_node = self._get_element_by_child_name(node, self._sub_element_name, create_missing_nodes=True)
+            # write copies: the elements stay where they are (e.g. in the document they were read from)
             if isinstance(py_value, etree._Element):  # noqa: SLF001
-                sub_node.append(py_value)
+                sub_node.append(xml_utils.copy_node_wo_parent(py_value))
             else:
-                sub_node.extend(py_value)
+                sub_node.extend(xml_utils.copy_node_wo_parent(x) for x in py_value)
 
 
 class SubElementProperty(_ElementBase):
@@ -1171,8 +1172,12 @@ class ContainerProperty(_ElementBase):
                     raise ValueError(f'mandatory value {self._sub_element_name} missing')  # noqa: EM102
                 etree.SubElement(node, self._sub_element_name, nsmap=node.nsmap)
         else:
-            self.remove_sub_element(node)
-            sub_node = py_value.mk_node(self._sub_element_name, self._ns_helper, node)
+            if self._sub_element_name is None:
+                # the container is represented by the node itself
+                sub_node = py_value.update_node(node, self._ns_helper)
+            else:
+                self.remove_sub_element(node)
+                sub_node = py_value.mk_node(self._sub_element_name, self._ns_helper, node)
             if py_value.NODETYPE != self.value_class.NODETYPE:
                 # set xsi type
                 sub_node.set(QN_TYPE, docname_from_qname(py_value.NODETYPE, node.nsmap))
@@ -1330,11 +1335,14 @@ class SubElementTextListProperty(_ElementListProperty):
 
     def __init__(self, sub_element_name: etree.QName | None, value_class: Any, is_optional: bool = True):
         super().__init__(sub_element_name, ListConverter(ClassCheckConverter(value_class)), is_optional=is_optional)
+        self.value_class = value_class
 
     def get_py_value_from_node(self, instance: Any, node: xml_utils.LxmlElement) -> Any:  # noqa: ARG002
         """Read value from node."""
         nodes = node.findall(self._sub_element_name)
-        return [_node.text for _node in nodes]
+        if self.value_class is str:
+            return [_node.text for _node in nodes]
+        return [self.value_class(_node.text) for _node in nodes]
 
     def update_xml_value(self, instance: Any, node: xml_utils.LxmlElement):
         """Write value to node."""
@@ -1353,7 +1361,7 @@ class SubElementTextListProperty(_ElementListProperty):
         for val in py_value:
             child = etree.SubElement(node, self._sub_element_name)
             try:
-                child.text = val
+                child.text = val if isinstance(val, str) else str(val)
             except TypeError as ex:
                 # re-raise with better info about data
                 raise TypeError(f'{ex} in {self}') from ex  # noqa: EM102
@@ -1439,7 +1447,8 @@ class AnyEtreeNodeListProperty(_ElementListProperty):
             return
 
         sub_node = self._get_element_by_child_name(node, self._sub_element_name, create_missing_nodes=True)
-        sub_node.extend(py_value)
+        # write copies: the elements stay where they are (e.g. in the document they were read from)
+        sub_node.extend(xml_utils.copy_node_wo_parent(x) for x in py_value)
 
     def __str__(self) -> str:
         return f'{self.__class__.__name__} in sub-element {self._sub_element_name}'
